@@ -60,3 +60,11 @@ package exterrors
 // annAgrees(e): the retry class of e is the class of its annotated code (holds when the outermost TemporaryErr on the
 // chain is the annotated SMTPError itself, which is how the tree builds them).
 //@ pure func annAgrees(e error) bool = annotated(e) ==> (tempOrUnspec(e) == (annCode(e)/100 == 4)) && (isTemp(e) == (annCode(e)/100 == 4))
+
+// ---- helpers used by functions under contract for C09 / C03 / C05: they build new values and touch nothing else ----
+//@ func WithFields
+//@   prop C09 C03 C05
+//@   ensures result != nil
+//@ func UnwrapDNSErr
+//@   prop C09 C03 C05
+//@   ensures misc != nil && fresh(misc)
